@@ -302,8 +302,11 @@ def cmp_special(op, it, mt, tol, abs_scale=None):
         if name in ('colless_yule', 'sackin_yule', 'colless_pda', 'sackin_pda'):
             idx, n = int(mt[0]), int(mt[1])
             if name == 'colless_yule':
-                e = n * math.log(n) + (0.57721566 - 1. - math.log(2.0)) * n
+                # the definition, with Euler's constant to full precision: E_Yule[I_c] = n ln n + n (gamma - 1 - ln 2).  The crate writes the
+                # constant with 8 digits (a deviation of 4.9e-9 in the normalised index); any better constant must pass, a worse one must not
+                e = n * math.log(n) + (0.5772156649015329 - 1. - math.log(2.0)) * n
                 exp = (idx - e) / n
+                return abs(fl(it[0]) - exp) <= 1e-8 + 1e-12 * abs(exp)
             elif name == 'sackin_yule':
                 s = sum(1.0 / i for i in range(2, n + 1))
                 exp = (idx - 2.0 * n * s) / n
